@@ -29,6 +29,7 @@ from .values import Unsupported, SpecError   # noqa: E402
 SOLVER_ORDER = {
     'default': ('z3', 'cvc5e', 'z3old'),
     'strings': ('cvc5', 'z3', 'z3old'),
+    'strings2': ('z3', 'cvc5', 'z3old'),
     'regex': ('z3', 'z3old', 'cvc5'),
 }
 
@@ -65,7 +66,15 @@ def obligation_script(ob, extra=()):
 
 def discharge(ob, tier, timeout, extra=()):
     """-> dict(verdict, solver, seconds, log)"""
-    order = SOLVER_ORDER[ob.meta.get('theory', 'default')]
+    theory = ob.meta.get('theory')
+    if theory is None:
+        theory = 'default'
+        seen = set()
+        for h in ob.hyps + [ob.goal]:
+            if any(x.sort == tm.STR for x in tm.subterms(h, seen)):
+                theory = 'strings2'
+                break
+    order = SOLVER_ORDER[theory]
     if ob.goal.is_const and ob.goal.val is False and ob.kind == 'U':
         return dict(verdict='unsupported', solver=None, seconds=0.0, log=[])
     asserts = inst_hyps(ob) + list(extra) + [tm.mk_not(ob.goal)]
